@@ -1528,6 +1528,59 @@ func sealedChannels(o vh.Opts, r *vh.RNG, rep *vh.Report) (*vh.Channel, *vh.Chan
 
 // ---------------------------------------------------------------- small function channels
 
+// idStringChannel: seq.ID.String / seq.FromString (the textual ID search hands out and fetch parses) vs SV.IDStr
+func idStringChannel(o vh.Opts, r *vh.RNG) *vh.Channel {
+	ch := vh.NewChannel("idstr", "seq.ID.String and seq.FromString vs SV.IDStr.idString / fromString: boundary and random IDs both ways, then texts mutated at one byte (other case, non-hex byte, separator byte), truncated and extended texts; non-trivial = all")
+	vals := []uint64{0, 1, 9, 10, 15, 16, 255, 256, 1<<32 - 1, 1 << 32, 1<<63 - 1, 1 << 63, ^uint64(0), ^uint64(0) - 1, 0x0123456789abcdef, 0xfedcba9876543210}
+	dec := func(x []byte, tags ...string) {
+		id, err := seq.FromString(string(x))
+		want := "err"
+		if err == nil {
+			want = fmt.Sprintf("ok %d %d", uint64(id.MID), uint64(id.RID))
+		}
+		ch.Add("idstr.dec "+vh.Hex(x), want, true, tags...)
+	}
+	try := func(m, rd uint64) {
+		id := seq.ID{MID: seq.MID(m), RID: seq.RID(rd)}
+		str := id.String()
+		ch.Add(fmt.Sprintf("idstr.enc %d %d", m, rd), "ok "+vh.Hex([]byte(str)), true, "enc")
+		dec([]byte(str), "dec-own")
+		x := []byte(str)
+		i := r.Intn(len(x))
+		switch r.Intn(5) {
+		case 0:
+			x[i] = byte(strings.ToUpper(string(x[i]))[0])
+			dec(x, "dec-upper")
+		case 1:
+			x[i] = []byte("g-GZ /:@`\x00\xff")[r.Intn(11)]
+			dec(x, "dec-bad-byte")
+		case 2:
+			x[16] = byte(r.Intn(256))
+			dec(x, "dec-separator")
+		case 3:
+			dec(x[:r.Intn(len(x))], "dec-short")
+		case 4:
+			dec(append(x, byte('0'+r.Intn(10))), "dec-long")
+		}
+	}
+	for _, m := range vals {
+		for _, rd := range vals {
+			try(m, rd)
+		}
+	}
+	for i := 0; i < o.Pick(300, 5000); i++ {
+		try(r.U64(), r.U64())
+	}
+	for i := 0; i < o.Pick(100, 2000); i++ { // arbitrary 33-byte texts over a small alphabet
+		x := make([]byte, 33)
+		for j := range x {
+			x[j] = "0123456789abcdefABCDEF-g"[r.Intn(24)]
+		}
+		dec(x, "dec-random-text")
+	}
+	return ch
+}
+
 func docPosChannels(o vh.Opts, r *vh.RNG) (*vh.Channel, *vh.Channel, *vh.Channel) {
 	dp := vh.NewChannel("docpos", "seq.PackDocPos / DocPos.Unpack vs SV.Fetch.packDocPos / unpackDocPos (bits = 30): boundary values of block and offset, random, and raw uint64 positions incl. 0 and MaxUint64; non-trivial = all")
 	const bits = 30
@@ -2128,6 +2181,9 @@ func main() {
 		fl, le := sealedChannels(o, rng.Fork(), rep)
 		rep.AddChannel(fl, o.Driver)
 		rep.AddChannel(le, o.Driver)
+	}
+	if run("idstr") {
+		rep.AddChannel(idStringChannel(o, rng.Fork()), o.Driver)
 	}
 	if run("docpos") || run("groupoffsets") || run("extract") {
 		a, b, c := docPosChannels(o, rng.Fork())
